@@ -1,9 +1,11 @@
 /-
 C17 - library calls neither modify their arguments nor remember earlier calls
 (the process-state half; argument immutability is about Python object identity and is
-validated by the harness, not proved).
+validated by the harness; its static counterpart - every statement that can write through a parameter
+or keep state on an object is reviewed - is `effects_reviewed` in Props/C17Effects.lean).
 -/
 import RigModel.Model.C17
+import RigModel.Props.C17Effects
 set_option linter.unusedSimpArgs false
 set_option linter.unusedVariables false
 
